@@ -16,7 +16,7 @@ import vt, cexpr
 from vt import Infra
 from cexpr import CT, lit, leaves, render, const_text
 
-FAMS = ["bin", "un", "cast", "cond", "d2l", "d2r", "cc"]
+FAMS = ["bin", "un", "cast", "cond", "d2l", "d2r", "cc", "case", "enum"]
 STRIDE = 96
 ROT = ["bool", "char", "uchar", "short", "ushort", "int", "uint", "long", "ulong", "enum"]
 WID = {"bool": 1, "char": 8, "uchar": 8, "short": 16, "ushort": 16, "int": 32, "uint": 32, "long": 64, "ulong": 64, "enum": 32}
@@ -70,7 +70,57 @@ def consumers(v):
     return ex
 
 
+def promoted(t, v):
+    return conv(v, "int") if WID[t] < 32 or t == "enum" else v
+
+
+def switch_code(n, v):
+    """family case: switch (x : tc) { case L0: [nested switch on another type] ...; case LABEL: ...; default: }"""
+    tc, tn, x, cv = v["tc"], v["tn"], int(v["x"]), int(v["conv"])
+    l0 = next(k for k in (0, 1, 2, 3) if k != cv and k != promoted(tc, x))
+    label = lit(v["tl"], int(v["lv"]))
+    if n % 3 == 2:
+        label = "%s ... %s" % (label, label)                  # [GNU] case range with equal bounds
+    top = ["static %s x%d = %s;" % (CT[tc], n, lit(tc, x))]
+    nested = ""
+    if tn != "-":
+        top.append("static %s y%d = 1;" % (CT[tn], n))
+        nested = "switch (y%d) { case 1: r = 8; break; default: r = 9; break; } " % n
+    body = ("int r = 7; switch (x%d) { case %d: %sr += 10; break; case %s: r = 1; break; default: r = 0; break; } "
+            'printf("%d c %%d\\n", r);' % (n, l0, nested, label, n))
+    top.append("static void c%d(void) { %s }" % (n, body))
+    return "\n".join(top), "c%d();" % n, {"c": [str(v["sel"])]}
+
+
+def enum_code(n, v):
+    """family enum: an enumerator defined from an outer enumerator of the same name, or from its predecessor"""
+    ex = "(N%d %s %s)" % (n, cexpr.OPS[v["op"]], lit(v["tc"], int(v["c"])))
+    pr = 'printf("%d e %%lu\\n", (unsigned long)(long)N%d); printf("%d f %%lu\\n", (unsigned long)(long)M%d);' % (n, n, n, n)
+    v0 = cexpr.ilit(int(v["v0"]))
+    if v["form"] == "shadow":
+        top = ["enum { N%d = %s };" % (n, v0),
+               "static void c%d(void) { enum { N%d = %s, M%d }; %s }" % (n, n, ex, n, pr)]
+    elif v["form"] == "blockshadow":
+        top = ["static void c%d(void) { enum { N%d = %s }; { enum { N%d = %s, M%d }; %s } }" % (n, n, v0, n, ex, n, pr)]
+    else:
+        pr = pr.replace("N%d)" % n, "B%d)" % n)
+        top = ["enum { N%d = %s, B%d = %s, M%d };" % (n, v0, n, ex, n), "static void c%d(void) { %s }" % (n, pr)]
+    return "\n".join(top), "c%d();" % n, {"e": [u64(int(v["n"]))], "f": [u64(int(v["m"]))]}
+
+
+def desc(v):
+    if v["f"] == "case":
+        return "switch(%s=%s){%scase (%s)%s}" % (v["tc"], v["x"], "" if v["tn"] == "-" else "nested switch(%s); " % v["tn"], v["tl"], v["lv"])
+    if v["f"] == "enum":
+        return "enum %s: N=%s; N = N %s (%s)%s" % (v["form"], v["v0"], cexpr.OPS[v["op"]], v["tc"], v["c"])
+    return const_text(v["e"])
+
+
 def case_code(n, v, only=None):
+    if v["f"] == "case":
+        return switch_code(n, v)
+    if v["f"] == "enum":
+        return enum_code(n, v)
     e, val, t = v["e"], int(v["s"]), v["t"]
     E = const_text(e)
     ex = consumers(v)
@@ -131,11 +181,15 @@ def mkprog(cases):
     return cexpr.PRELUDE + "\n".join(tops) + "\nint main(void) {\n" + "\n".join(calls) + "\nreturn 0; }\n"
 
 
-NAMES = dict(i="static-init-implicit", s="static-init-long", t="static-init", e="enumerator", a="array-bound", b="bitfield-width", l="alignas",
+NAMES = dict(f="next-enumerator", i="static-init-implicit", s="static-init-long", t="static-init", e="enumerator", a="array-bound", b="bitfield-width", l="alignas",
              d="designator", c="case-label", p="pp-if", q="pp-if-eq", v="runtime")
 
 
 def cls(v, tag, n, what):
+    if v["f"] == "case":
+        return "const:switch-label:%s:nested-%s:%s:%s" % (v["tc"], v["tn"], v["tl"], what)
+    if v["f"] == "enum":
+        return "const:enumerator-%s:%s:%s:%s" % (v["form"], v["op"], v["tc"], what)
     extra = ""
     if tag == "t":
         extra = "-" + ROT[n % len(ROT)]
@@ -156,7 +210,7 @@ def judge(ctx, tree, vecs, tag):
     for n, (v, _) in items:
         exp, got = case_code(n, v)[2], res.get(n)
         for k in exp:
-            ctx.note_case("%s|%s|%s" % (k, ROT[n % len(ROT)] if k == "t" else "", const_text(v["e"])), nontrivial=k != "v")
+            ctx.note_case("%s|%s|%s" % (k, ROT[n % len(ROT)] if k == "t" else "", desc(v)), nontrivial=k != "v")
         if isinstance(got, tuple):
             retry += [(n * 16 + j, (v, k)) for j, k in enumerate(sorted(exp))]
         else:
@@ -181,7 +235,7 @@ def judge(ctx, tree, vecs, tag):
                 continue
             what = "crash-or-rejected" if isinstance(got, tuple) else "value"
             ctx.report(cls(v, k, n, what),
-                       "%s as %s: spec (and gcc) %s, chibicc %s" % (const_text(v["e"]), NAMES[k], exp, got if not isinstance(got, tuple) else got[1][-200:]),
+                       "%s as %s: spec (and gcc) %s, chibicc %s" % (desc(v), NAMES.get(k, k), exp, got if not isinstance(got, tuple) else got[1][-200:]),
                        case=dict(kind="const", vec=v, n=n, consumer=k, expected=exp, got=got, program=mkprog([(n, (v, k))])))
     ctx.cov["traces_validated_against_impl"] += len(items)
     return len(bad)
@@ -225,8 +279,8 @@ def run(ctx):
     ctx.phase("build done")
     cexpr.model_check(ctx, "ExprMC_quick.cfg" if q else "ExprMC.cfg",
                       "eval2/is_const_expr (ConstEval) does not compute the C11 value or type of a constant expression",
-                      ["ConstInv"], workers=12 if q else 16, sensitivity=False,
-                      Shapes='{"bin","un","cast","cond","cc","d2l","d2r","d2u"}')
+                      ["ConstInv", "CaseInv", "EnumInv"], workers=12 if q else 16, sensitivity=False,
+                      Shapes='{"bin","un","cast","cond","cc","case","enum","d2l","d2r","d2u"}')
     # sensitivity control: the pinned folder (cast arm typed uint32_t, no re-wrapping) must be rejected
     c2 = ctx.cfg("expr", "ExprMC_quick.cfg", FIX_D10=False, Shapes='{"un","cast"}')
     t2 = re.sub(r"(?m)^INVARIANTS .*$", "INVARIANTS ConstInv", open(c2).read())
@@ -239,8 +293,11 @@ def run(ctx):
     dz = [v for v in vec if v["dz"]]
     vec = [v for v in vec if not v["dz"]]
     for v in vec[:: max(1, len(vec) // 3)][:3]:
-        ctx.sample(dict(kind="constant expression", expr=const_text(v["e"]), type=v["t"], value=v["s"],
-                        contexts=sorted(NAMES[k] for k in consumers(v))))
+        if v["f"] in ("case", "enum"):
+            ctx.sample(dict(kind=v["f"], what=desc(v)))
+        else:
+            ctx.sample(dict(kind="constant expression", expr=const_text(v["e"]), type=v["t"], value=v["s"],
+                            contexts=sorted(NAMES[k] for k in consumers(v))))
     nbad = judge(ctx, tree, vec, "c07")
     ctx.phase("replay done (%d disagreements before triage)" % nbad)
     # thorough: all zero-divisor vectors; quick: those the stride selected
@@ -277,5 +334,5 @@ def replay(ctx, path):
         exp = case_code(n, v, k)[2]
         if isinstance(r, tuple) or r.get(k) != exp[k]:
             ctx.report(cls(v, k, n, "crash-or-rejected" if isinstance(r, tuple) else "value"),
-                       "%s as %s: spec %s, chibicc %s" % (const_text(v["e"]), NAMES[k], exp[k], r), case=c)
+                       "%s as %s: spec %s, chibicc %s" % (desc(v), NAMES.get(k, k), exp[k], r), case=c)
     return ctx.finish(rule="replay of one recorded case")
